@@ -8,7 +8,7 @@ CONSTS = []
 RULE = ("user.HasFilePermission on generated directory trees (files, directories, FIFOs, symlinks to files / directories / other "
         "links, dangling links, '..' paths, relative paths) x rule lists (allow and '!' deny, bare and 'readfiles:' prefixed, POSIX "
         "classes with ':', uncompilable patterns, per-user lists replacing the defaults); resolved path and file kind from Python's "
-        "os.path.realpath / lstat; match verdicts from Go's regexp; plus end-to-end sessions checking that a denied request returns "
+        "os.path.realpath / lstat, compared with Go's EvalSymlinks + Abs and with the model's physical walk over the same tree; match verdicts from Go's regexp; plus end-to-end sessions checking that a denied request returns "
         "no file content; non-trivial = >= 2 rules with at least one deny or a symlink in the request; distinct by (rules, request)")
 TRUSTED = ["Coq 8.16.1 kernel + VM", "Go regexp (compile / match oracle table)", "OS path resolution (Python realpath / lstat as the independent oracle)",
            "Go harness dverif perm / session"]
@@ -17,6 +17,7 @@ ASSUMPTIONS = ["background job users (DTAIL-SCHEDULE / DTAIL-CONTINUOUS) bypass 
                "the Linux ACL check is not compiled in (stub returns true)"]
 
 _state = {}
+TREE = {}
 
 
 def mktree(base):
@@ -36,6 +37,7 @@ def mktree(base):
     fifo = os.path.join(base, "other/fifo")
     if not os.path.exists(fifo):
         os.mkfifo(fifo)
+    TREE.update({"dirs": ["log", "log/app", "log/secret", "other"], "files": files, "links": links, "other": ["other/fifo"]})
     reqs = files + list(links) + ["log/app/link_dir/abc", "log/app/link_dir/key.pem", "other/dir_to_app/a.log", "other/dir_to_app/b1.log", "other/fifo", "log/app", "log/app/../secret/abc", "log/app/link_dir/abc", "log/app/link_dir/../top.log",
                                   "nonexistent", "log//app/a.log", "log/app/./a.log", "other/../log/top.log"]
     return reqs
@@ -154,6 +156,41 @@ def judge(cases, obs, tier):
     errors += errs
     for f in fails:
         model[idx[f]] = "Coq model `served` differs from HasFilePermission"
+    # path resolution: the model's physical walk over the generated tree against what Go (EvalSymlinks + Abs) and the OS
+    # (Python realpath) resolve the request to
+    base = _state["base"]
+    comps = lambda rel: vf.cq_list([vf.cq_bytes(x.encode()) for x in rel.split("/")]) if rel != "" else "[]"
+    fs = ["(%s, NDir)" % comps(d) for d in TREE["dirs"]] + ["(%s, NFile)" % comps(f) for f in TREE["files"]] + ["(%s, NOther)" % comps(f) for f in TREE["other"]]
+    for l, t in TREE["links"].items():
+        if t.startswith(base + "/"):
+            fs.append("(%s, NLink true %s)" % (comps(l), comps(t[len(base) + 1:])))
+        else:
+            fs.append("(%s, NLink false %s)" % (comps(l), comps(t)))
+    pterms, pidx = [], []
+
+    def rel_of(res):
+        if not res:
+            return "None"
+        if res == base:
+            return "(Some [])"
+        if res.startswith(base + "/"):
+            return "(Some %s)" % comps(res[len(base) + 1:])
+        return None
+    for i, (c, o) in enumerate(zip(cases, obs)):
+        if o is None or "go_resolved" not in o:
+            continue
+        gr = o["go_resolved"] or None
+        if i not in oracle and gr != c["_resolved"]:
+            oracle[i] = "request %s: HasFilePermission's resolution (EvalSymlinks + Abs) gives %r, the OS resolves it to %r" % (c["_path"], gr, c["_resolved"])
+        want = rel_of(gr)
+        if want is not None and not c["rel"]:     # (os.path.relpath rewrites relative requests lexically: another request)
+            pterms.append("(%s, %s)" % (comps(c["req"]), want))
+            pidx.append(i)
+    header = "From DT Require Import Lib.Bytes Model.C08_Path.\nDefinition the_fs : fsys := %s.\n" % vf.cq_list(fs)
+    fails, errs = vf.coq_eval_sharded(header, pterms, "path_agree the_fs", per_shard=300, case_type="path_case")
+    errors += errs
+    for f in fails:
+        model[pidx[f]] = "Coq model of path resolution (physical walk over the tree) differs from Go's EvalSymlinks + Abs"
     return {"oracle": oracle, "model": model, "errors": errors}
 
 
